@@ -8,7 +8,7 @@ KEEP = {
     "C02": ("visit", ("verdict",)),
     "C03": ("visit", ("value-error-true", "min-error-true", "max-error-true", "unexpected-error-kind")),
     "C08": ("visit", ("no-exception",)),
-    "C04": ("usable", ("conforming-value-refused", "result-rejects-substituted-value")),
+    "C04": ("usable", ("conforming-value-refused", "result-rejects-substituted-value", "pinned-value-differs")),
     "C12": ("usable", ("only-SubstitutionError", "result-rejects-what-it-generates", "not-idempotent", "result-has-no-float-value")),
     "C05": ("narrow", ("widened", "only-SubstitutionError")),
 }
@@ -52,7 +52,7 @@ def run(prop, tier, replay_dir, active_kf=()):
             res["obligations"] += 1
             res["inconclusive"].append({"harness": "%s.fpsym.%s.%s" % (prop, kind, tag), "fn": kind, "why": item["error"]})
             continue
-        mine = [r for r in item["records"] if r["check"] in keep]
+        mine = [r for r in item["records"] if r["check"] in keep or r["check"] == "budget"]
         summary.append({"cfg": cfg, "queries": len(mine), "paths": len({tuple(r["decisions"]) for r in item["records"]}),
                         "wall_s": item["wall_s"]})
         hunt = (kind == "narrow" and cfg[0] and cfg[3] is None)    # isclose is not transitive: F12, bug-hunting only
